@@ -29,6 +29,7 @@ class Block:
         self.params = {}     # did -> name  (container params)
         self.stores = {}     # location tuple -> accumulated delta
         self.overwrites = []  # (location, node)
+        self.rmw = []         # (location, node): stores of the form out = (value read from out) + delta
         self.idxname = {}    # loop var did -> role name
         for p in fn["params"]:
             t = p["t"]
@@ -154,12 +155,72 @@ class Block:
                 elif s["op"] == "-=":
                     self.stores[loc] = self.stores.get(loc, 0) - val
                 else:
-                    self.overwrites.append((loc, s))
+                    cur = self.sym_load(loc)
+                    d = sympy.expand(val - cur)
+                    if s["op"] == "=" and cur in val.free_symbols and cur not in d.free_symbols:
+                        # `out = old + d` where `old` is the value read from the same location: an accumulation written long-hand
+                        self.stores[loc] = d
+                        self.rmw.append((loc, s))
+                    else:
+                        self.overwrites.append((loc, s))
                 return
             raise AnalysisBroken("%s: assignment target not understood: %s" % (self.facts.loc(s), self.facts.ntext(lhs)))
         if k in ("NullStmt",):
             return
+        if k == "CallExpr" and self.inline_call(s):
+            return
         raise AnalysisBroken("%s: statement form not supported by the algebra engine: %s" % (self.facts.loc(s), k))
+
+    def inline_call(self, call):
+        """a library helper called as a statement with scalar values and addresses of locations (`&acc`, `&out[i]`): its body is
+        evaluated on the caller's values, what it adds through a pointer is added to the location the pointer was made from"""
+        nm = tbf.callee_name(call)
+        args = tbf.call_args(call)
+        cands = [g for g in self.facts.functions if g["name"] == nm and not g.get("inst") and len(g["params"]) == len(args) and tbf.body(g) is not None
+                 and (g.get("cls") in (None, self.fn.get("cls")) or call.get("callee") == g["qname"])]
+        if len(cands) != 1 or cands[0] is self.fn:
+            return False
+        g = cands[0]
+        sub = Block(self.facts, g)
+        alias = {}
+        for p, a in zip(g["params"], args):
+            a0 = strip(a)
+            if p["did"] in sub.cells:
+                if a0.get("k") == "UnaryOperator" and a0.get("op") == "&":
+                    tgt = strip(kids(a0)[0])
+                    if tgt.get("k") == "DeclRefExpr" and tgt.get("did") in self.env:
+                        alias[p["name"]] = ("env", tgt["did"])
+                        continue
+                    loc = self.loc_of(tgt)
+                    if loc is not None:
+                        alias[p["name"]] = ("loc", loc)
+                        continue
+                raise AnalysisBroken("%s: pointer argument `%s` of %s is not the address of a local or of an output element" % (self.facts.loc(a), self.facts.ntext(a)[:40], nm))
+            elif p["did"] in sub.params:
+                raise AnalysisBroken("%s: container argument of %s not supported by the algebra engine" % (self.facts.loc(a), nm))
+            else:
+                sub.env[p["did"]] = self.eval(a)
+        # loads through the pointers read the caller's current value
+        base_load = sub.sym_load
+
+        def load(loc):
+            if len(loc) == 1 and loc[0] in alias:
+                kind, ref = alias[loc[0]]
+                return self.env[ref] if kind == "env" else (self.sym_load(ref) + self.stores.get(ref, 0))
+            return base_load(loc)
+        sub.sym_load = load
+        sub.exec(tbf.body(g))
+        for (loc, node) in sub.overwrites:
+            if len(loc) == 1 and loc[0] in alias:
+                self.overwrites.append((alias[loc[0]][1] if alias[loc[0]][0] == "loc" else ("local",), node))
+        for loc, delta in sub.stores.items():
+            if len(loc) == 1 and loc[0] in alias:
+                kind, ref = alias[loc[0]]
+                if kind == "env":
+                    self.env[ref] = self.env[ref] + delta
+                else:
+                    self.stores[ref] = self.stores.get(ref, 0) + delta
+        return True
 
 
 def loop_parts(facts, forstmt):
